@@ -228,7 +228,7 @@ prop( 'C10', [ 'G-BOUND', 'G-REF', 'R-LIMIT', 'R-SENT', 'R-REPEAT', 'G-PRIMS', '
       technique='reference resolution over extracted grammar graphs; boundedness analysis with a consumption model; AST idiom matching and '
                 'CFG effect counting on the framework' )
 
-prop( 'C09', [ 'R-LOCK-1', 'R-LOCK-6', 'R-LOCK-2', 'R-LOCK-3', 'R-LOCK-4', 'R-LOCK-5', 'R-ISO', 'R-SNAPSHOT', 'P-CLOSURE', 'G-INIT', 'R-STATELESS' , 'P-ROUTE', 'T-TAGLOOP', 'W-CLASSSTATE', 'R-REENTRANT' ],
+prop( 'C09', [ 'R-LOCK-1', 'R-LOCK-6', 'R-LOCK-2', 'R-LOCK-3', 'R-LOCK-4', 'R-LOCK-5', 'R-ISO', 'R-SNAPSHOT', 'P-CLOSURE', 'G-INIT', 'R-STATELESS' , 'P-ROUTE', 'T-TAGLOOP', 'W-CLASSSTATE', 'R-REENTRANT', 'W-ITERDEL' ],
       decides='P-ROUTE ( replies only to one\'s own requests, gateway case ): every check of a routed response lies inside the try whose handler drops the shared route connection, so a timed-out response is never left in flight for the next session.  T-TAGLOOP also: main() finds a tag already configured at the same address by its resolved ( class, instance, attribute ), so two names for one attribute share ONE Attribute object.  R-SNAPSHOT also: a vector is written in place - its storage list is never re-bound ( no copy-modify-install ).  lock-discipline clauses.  R-LOCK-1: every <m>.run( source=... ) on a state machine outside automata.py happens while <m> is '
               'held by an enclosing `with ... as <m>` (client.__next__\'s self.frame.run is dominated by self.frame.safe() in a class whose '
               '__enter__/__exit__ delegate to the frame) - covers every interleaving of every number of sessions; R-LOCK-2: class-level '
